@@ -106,6 +106,7 @@ fn main() {
                 "C10" => props::c10::run(&ctx, &mut rep),
                 "C11" => props::c11::run(&ctx, &mut rep),
                 "C12" => props::c12::run(&ctx, &mut rep),
+                "C13" => props::c13::run(&ctx, &mut rep),
                 other => {
                     eprintln!("unknown property {other}");
                     std::process::exit(2);
